@@ -152,10 +152,8 @@ harness!(c15_merge_2x2, 8, { merge_check::<2, 2>(7); });
 harness!(c15_merge_3_lens_2_1_0, 8, { merge_check_lens::<3, 2>([2, 1, 0], 6); });
 //@ heavy=1 tier=thorough
 harness!(c15_merge_3_lens_1_2_1, 8, { merge_check_lens::<3, 2>([1, 2, 1], 7); });
-//@ heavy=1 tier=thorough
-harness!(c15_merge_3x2, 10, { merge_check::<3, 2>(10); });
-//@ heavy=1 tier=thorough
-harness!(c15_merge_2x3, 10, { merge_check::<2, 3>(9); });
+// (3 senders x 2 symbolic script entries and 2 x 3 exhaust 16 GB in CBMC: not kept — the thorough bound is
+// 3 senders with concrete script lengths [1,2,1] / [2,1,0] and 2 senders x 2 fully symbolic entries)
 
 // TaggedSource: every item of the inner stream is passed through, in order, with the sender's tag
 //@ heavy=1
